@@ -465,6 +465,11 @@ def classify(case, level, group, probs, hang_cmd=None, also=()):
     if group == "handler" and shape_f2(case):
         if all(p.startswith("handler SIGINT:") and p.endswith("-> ProcProxyThread._signal_int") for p in probs):
             return "C09-F2"
+    if group == "sigint" and shape_f2(case):
+        # every repetition nests one more saved handler (F2); a few hundred levels later the chain of
+        # _signal_int -> _restore_sigint -> old handler calls exceeds the recursion limit
+        if all("RecursionError" in p and "ProcProxyThread._signal_int" in p for p in probs):
+            return "C09-F2"
     if group == "std" and shape_f3(case):
         if all(p.startswith(("sys.stdout replaced:", "sys.stderr replaced:")) and p.endswith("-> FileThreadDispatcher") for p in probs):
             return "C09-F3"
